@@ -50,6 +50,10 @@ def gen(tier, rng, harness, driver):
             if mode != "2":
                 # (the same observers, then the ADDRESS SPACE of the global variable and the function is edited: the text is the one the edits give unobserved)
                 lines.append("!edit.as %s %s" % (name, mode))
+    # string-valued FIELDS set through the API at every site that prints one (section, gc, comdat, the syncscope of each of the five atomic kinds, asm strings, ...):
+    # the text printed for the constructed module is accepted and the string comes back unchanged (quotes, backslashes, control and non-UTF-8 bytes)
+    for sv in (b'wave"front\n', b"\\", b"bell\x07", b"\xff\x7f", b"plain"):
+        lines.append("!rt.strsites %s" % sv.hex())
     # the calling-convention FIELD set to every number (keywords, the holes between them, the numbers beyond): printed text is accepted and read back as that number
     lines += ["!cc.rt %d" % n for n in range(0, 1101)]
     for site in ("call", "invoke", "callbr"):
